@@ -177,10 +177,11 @@ impl<L: Localize> OpeningHours<L> {
                     },
                 ),
                 (RuleOperator::Fallback, _) => {
-                    if prev_match
-                        && !(prev_eval.as_ref())
-                            .map(Schedule::is_always_closed)
-                            .unwrap_or(false)
+                    // Previous rules may cover the day without matching it, through a time span
+                    // that started yesterday: what matters is what they produced.
+                    if !(prev_eval.as_ref())
+                        .map(Schedule::is_always_closed)
+                        .unwrap_or(true)
                     {
                         (prev_match, prev_eval)
                     } else {
